@@ -182,7 +182,13 @@ namespace vh {
         if (ti.bare_equal_type_info(typeid(char))) return "char:" + std::to_string(static_cast<int>(n.get_as<char>()));
         if (ti.bare_equal_type_info(typeid(float)) || ti.bare_equal_type_info(typeid(double)) || ti.bare_equal_type_info(typeid(long double))) {
           char buf[64];
-          std::snprintf(buf, sizeof buf, "%.17Lg", n.get_as<long double>());
+          if (ti.bare_equal_type_info(typeid(float))) {
+            std::snprintf(buf, sizeof buf, "%.9g", static_cast<double>(n.get_as<float>()));
+          } else if (ti.bare_equal_type_info(typeid(double))) {
+            std::snprintf(buf, sizeof buf, "%.17g", n.get_as<double>());
+          } else {
+            std::snprintf(buf, sizeof buf, "%.21Lg", n.get_as<long double>());
+          }
           return t + ":" + buf;
         }
         return t + ":" + n.to_string();
